@@ -3,7 +3,7 @@
    Part 1 (algebra) quantifies over ALL rational weights, inputs, biases, BatchNorm coefficients, every per-channel
    factor r standing for rsqrt(var+eps), every kernel size K and channel count C.
    Part 2 (object graph) quantifies over ALL lists of modules, all configurations (method, autoconvert, fold_bn) and both
-   modes; the flags c_copyfuse / c_setflag / c_restore select the code as it is now (true) or the pinned commit (false):
+   modes; the flags c_copyfuse / c_setflag / c_restore / c_keepshared select the code as it is now (true) or the pinned commit (false):
    a theorem that does not constrain a flag holds for both. *)
 From Coq Require Import QArith ZArith List Bool.
 Import ListNotations.
@@ -47,24 +47,39 @@ Theorem C07_export_open_is_original : forall K C cin d0 (W : list (list (list Q)
   /\ export_b (open_features_mask C) B = B.
 Proof. exact export_open_is_original. Qed.
 
-(* --- conversion keeps the mode it found (PIT and MPS): wrapper, seed, every object held by the seed *)
+(* --- conversion keeps the mode it found (PIT and MPS): wrapper, seed, every object held by the seed; an object the seed
+   shares with the caller's model (id <= length mods) keeps the caller's flag (c_keepshared) *)
 Theorem C07_convert_keeps_mode : forall c mods rt st,
   c_method c <> SN -> convert c mods rt = Some st ->
   wrap_train st = rt /\ seed_train st = rt /\
-  forall id, In id (reach (heap st) (seed st)) -> (id < length (heap st))%nat -> o_train (nth id (heap st) dobj) = rt.
+  forall id, In id (reach (heap st) (seed st)) -> (id < length (heap st))%nat ->
+    o_train (nth id (heap st) dobj) = if c_keepshared c && Nat.leb id (length mods) then found_flag mods rt id else rt.
 Proof. exact convert_keeps_mode. Qed.
 
 (* --- ... and the caller's own model object: each module (and the model, index = length mods) gets the flag it was found
-   with, unless the converted model shares it (then it follows the converted model) *)
+   with (c_keepshared); before the last repair a module shared with the converted model followed the converted model *)
 Theorem C07_convert_user_mode : forall c mods rt st,
   c_restore c = true -> convert c mods rt = Some st ->
   forall i, (i <= length mods)%nat ->
     o_train (nth i (heap st) dobj) =
       match c_method c with
       | SN => found_flag mods rt i
-      | _ => if memb i (reach (heap st) (seed st)) then rt else found_flag mods rt i
+      | _ => if c_keepshared c then found_flag mods rt i
+             else if memb i (reach (heap st) (seed st)) then rt else found_flag mods rt i
       end.
 Proof. exact convert_user_mode. Qed.
+
+(* the code as it is now: a model handed over with ANY mix of flags (frozen BatchNorm / Dropout ...) gets every flag back *)
+Theorem C07_convert_keeps_user_flags : forall c mods rt st,
+  c_restore c = true -> c_keepshared c = true -> convert c mods rt = Some st ->
+  forall i, (i <= length mods)%nat -> o_train (nth i (heap st) dobj) = found_flag mods rt i.
+Proof. exact convert_keeps_user_flags. Qed.
+
+(* before the last repair (constructor tail recursing into shared modules): a module kept in eval() inside a training model flips *)
+Theorem C07_convert_keeps_user_flags_refuted : exists m mods rt st i,
+  convert (before_keepshared m true false) mods rt = Some st /\ (i < length mods)%nat /\
+  o_train (nth i (heap st) dobj) <> found_flag mods rt i.
+Proof. exact convert_keeps_user_flags_refuted. Qed.
 
 Theorem C07_convert_keeps_user_mode : forall c mods rt st,
   c_restore c = true -> Forall (fun m => u_train m = rt) mods -> convert c mods rt = Some st ->
@@ -141,6 +156,8 @@ Print Assumptions C07_double_bn_refuted.
 Print Assumptions C07_export_open_is_original.
 Print Assumptions C07_convert_keeps_mode.
 Print Assumptions C07_convert_user_mode.
+Print Assumptions C07_convert_keeps_user_flags.
+Print Assumptions C07_convert_keeps_user_flags_refuted.
 Print Assumptions C07_convert_keeps_user_mode.
 Print Assumptions C07_convert_keeps_user_mode_refuted.
 Print Assumptions C07_convert_keeps_user_params.
